@@ -188,3 +188,36 @@ package mat
 //@   ghostset after "det := m.Algebra().ScalarRing().One()": pv[0] = det
 //@   ghostset after "a.SwapRowAssign(k, pivot)": nsw = nsw + 1
 //@   ghostset after "det = det.Mul(pivotVal)": pv[$i+1] = det
+
+// ---------------------------------------------------------------- decoded dimensions (C12)
+// The element count a decoder compares the payload against is the TRUE product of the declared dimensions, and it is
+// reported only when that product fits an int: declared dimensions whose product wraps are rejected, never matched
+// against a short payload.
+//@ func expectedDataLen
+//@   property C12
+//@   purefn
+//@   ensures result1 == (rows > 0 && cols > 0 && rows * cols <= 9223372036854775807)
+//@   ensures result1 ==> result == rows * cols
+//@   ensures !result1 ==> result == 0
+
+//@ func (*Matrix).init
+//@   property C12
+//@   modifies m.m, m.n, m.v
+//@   ensures m.m == rows && m.n == cols && len(m.v) == rows * cols
+//@ func (*ModuleValuedMatrix).init
+//@   property C12
+//@   modifies m.m, m.n, m.v
+//@   ensures m.m == rows && m.n == cols && len(m.v) == rows * cols
+
+// A decoded matrix is one a constructor could have produced: positive dimensions and exactly rows*cols entries, taken
+// from the payload; anything else is rejected.
+//@ func (*Matrix).UnmarshalCBOR
+//@   property C12
+//@   ensures err == nil ==> m.m > 0 && m.n > 0 && len(m.v) == m.m * m.n
+//@   loop range(dto.Data)
+//@     invariant true
+//@ func (*ModuleValuedMatrix).UnmarshalCBOR
+//@   property C12
+//@   ensures err == nil ==> m.m > 0 && m.n > 0 && len(m.v) == m.m * m.n
+//@   loop range(dto.Data)
+//@     invariant true
